@@ -396,5 +396,49 @@ BOOST_AUTO_TEST_CASE( three_attributes_two_same)
 
 
 
+/// Remove exactly one entry, using the id that was returned when it was added.
+///
+/// @since  1.47.0, 30.09.2026
+BOOST_AUTO_TEST_CASE( remove_entry_by_id)
+{
+
+   LogAttributesContainer  lac;
+
+
+   const auto  id1 = lac.addAttribute( "name", "first");
+   const auto  id2 = lac.addAttribute( "name", "second");
+   const auto  id3 = lac.addAttribute( "name", "third");
+
+   BOOST_REQUIRE( id1 != id2);
+   BOOST_REQUIRE( id2 != id3);
+   BOOST_REQUIRE_EQUAL( lac.getAttribute( "name"), "third");
+
+   // remove the entry in the middle: the newest value is still found
+   BOOST_REQUIRE_NO_THROW( lac.removeAttributeEntry( id2));
+   BOOST_REQUIRE_EQUAL( lac.getAttribute( "name"), "third");
+
+   // removing the same entry again does nothing
+   BOOST_REQUIRE_NO_THROW( lac.removeAttributeEntry( id2));
+   BOOST_REQUIRE_EQUAL( lac.getAttribute( "name"), "third");
+
+   BOOST_REQUIRE_NO_THROW( lac.removeAttributeEntry( id3));
+   BOOST_REQUIRE_EQUAL( lac.getAttribute( "name"), "first");
+
+   // ids are not re-used
+   const auto  id4 = lac.addAttribute( "name", "fourth");
+   BOOST_REQUIRE( id4 != id1);
+   BOOST_REQUIRE( id4 != id2);
+   BOOST_REQUIRE( id4 != id3);
+
+   BOOST_REQUIRE_NO_THROW( lac.removeAttributeEntry( id1));
+   BOOST_REQUIRE_EQUAL( lac.getAttribute( "name"), "fourth");
+
+   BOOST_REQUIRE_NO_THROW( lac.removeAttributeEntry( id4));
+   BOOST_REQUIRE_EQUAL( lac.getAttribute( "name"), "");
+
+} // remove_entry_by_id
+
+
+
 // =====  END OF test_log_attributes_container.cpp  =====
 
